@@ -93,6 +93,7 @@ double reb_integrator_mercurius_L_infinity(const struct reb_simulation* const r,
 
 
 void reb_integrator_mercurius_inertial_to_dh(struct reb_simulation* r){
+    REB_VERIF(r, "m_to_dh", 1, (double)r->N);
     struct reb_particle* restrict const particles = r->particles;
     struct reb_vec3d com_pos = {0};
     struct reb_vec3d com_vel = {0};
@@ -125,6 +126,7 @@ void reb_integrator_mercurius_inertial_to_dh(struct reb_simulation* r){
 }
 
 void reb_integrator_mercurius_dh_to_inertial(struct reb_simulation* r){
+    REB_VERIF(r, "m_to_in", 1, (double)r->N);
     struct reb_particle* restrict const particles = r->particles;
     struct reb_particle temp = {0};
     const int N = r->N;
@@ -253,6 +255,7 @@ static void reb_mercurius_encounter_predict(struct reb_simulation* const r){
 }
     
 void reb_integrator_mercurius_interaction_step(struct reb_simulation* const r, double dt){
+    REB_VERIF(r, "m_kick", 2, dt, r->dt);
     struct reb_particle* restrict const particles = r->particles;
     const int N = r->N;
     for (int i=1;i<N;i++){
@@ -263,6 +266,7 @@ void reb_integrator_mercurius_interaction_step(struct reb_simulation* const r, d
 }
 
 void reb_integrator_mercurius_jump_step(struct reb_simulation* const r, double dt){
+    REB_VERIF(r, "m_jump", 2, dt, r->dt);
     struct reb_particle* restrict const particles = r->particles;
     const unsigned int N_active = r->N_active==-1?r->N: (unsigned int)r->N_active;
     const int N = r->testparticle_type==0 ? N_active: r->N;
@@ -284,12 +288,14 @@ void reb_integrator_mercurius_jump_step(struct reb_simulation* const r, double d
 }
 
 void reb_integrator_mercurius_com_step(struct reb_simulation* const r, double dt){
+    REB_VERIF(r, "m_com", 2, dt, r->dt);
     r->ri_mercurius.com_pos.x += dt*r->ri_mercurius.com_vel.x;
     r->ri_mercurius.com_pos.y += dt*r->ri_mercurius.com_vel.y;
     r->ri_mercurius.com_pos.z += dt*r->ri_mercurius.com_vel.z;
 }
 
 void reb_integrator_mercurius_kepler_step(struct reb_simulation* const r, double dt){
+    REB_VERIF(r, "m_kepler", 2, dt, r->dt);
     struct reb_particle* restrict const particles = r->particles;
     const int N = r->N;
     for (int i=1;i<N;i++){
@@ -298,6 +304,7 @@ void reb_integrator_mercurius_kepler_step(struct reb_simulation* const r, double
 }
 
 static void reb_mercurius_encounter_step(struct reb_simulation* const r, const double _dt){
+    REB_VERIF(r, "m_enc", 2, _dt, r->dt);
     // Only particles having a close encounter are integrated by IAS15.
     struct reb_integrator_mercurius* rim = &(r->ri_mercurius);
     if (rim->encounter_N<2){
@@ -528,6 +535,7 @@ void reb_integrator_mercurius_part2(struct reb_simulation* const r){
 
 void reb_integrator_mercurius_synchronize(struct reb_simulation* r){
     struct reb_integrator_mercurius* const rim = &(r->ri_mercurius);
+    REB_VERIF(r, "sync_b", 2, (double)rim->is_synchronized, 0.);
     if (rim->is_synchronized == 0){
         r->gravity = REB_GRAVITY_MERCURIUS; // needed here again for Simulationarchive
         rim->mode = 0;
@@ -543,6 +551,7 @@ void reb_integrator_mercurius_synchronize(struct reb_simulation* r){
         rim->recalculate_coordinates_this_timestep = 1; 
         rim->is_synchronized = 1;
     }
+    REB_VERIF(r, "sync_e", 1, (double)rim->is_synchronized);
 }
 
 void reb_integrator_mercurius_reset(struct reb_simulation* r){
